@@ -23,6 +23,8 @@ func init() {
 			"announced ids and scheduled groups derive from the same liveChildDescriptors result (initial frame, nested frames, sequence arm); the stream's Complete() is called only from a defer registered after the first successful Flush; defer groups use a plain errgroup that is joined; " +
 			"the defer normalization stages are registered in the documented order. It does not decide reconstruction equality with the non-deferred response.",
 		Mutants: []Mutant{
+			{Name: "label of the internal defer directive read without a kind test (reverts part of the F49 fix)", File: "v2/pkg/engine/plan/datasource_filter_collect_nodes_visitor.go", Rule: "C10-R8", Key: "treeBuilderVisitor.deferInfo/kind-matches-ref:StringValueContentString",
+				Old: "\tif exists && labelValue.Kind == ast.ValueKindString {\n", New: "\tif exists {\n"},
 			{Name: "field duplicated per concrete type by a hand-written literal without Defer/Stream (reverts the F33 fix)", File: "v2/pkg/engine/postprocess/merge_fields.go", Rule: "C10-R7", Key: "mergeFields.traverseNode/field-duplicate-carries-copy-fields",
 				Old: "\t\t\t\t\tadditionalField := n.Fields[i].Copy()\n\t\t\t\t\tadditionalField.OnTypeNames = [][]byte{additionalTypeNames[j]}\n",
 				New: "\t\t\t\t\tadditionalField := &resolve.Field{\n\t\t\t\t\t\tName:        n.Fields[i].Name,\n\t\t\t\t\t\tValue:       n.Fields[i].Value.Copy(),\n\t\t\t\t\t\tPosition:    n.Fields[i].Position,\n\t\t\t\t\t\tOnTypeNames: [][]byte{additionalTypeNames[j]},\n\t\t\t\t\t\tInfo:        n.Fields[i].Info,\n\t\t\t\t\t}\n"},
@@ -54,6 +56,9 @@ func runC10(r *fw.Run) {
 	defer func() {
 		r.Rule("C10-R7", "every hand-written duplicate of a resolve.Field in the post-processor / planner (a Field literal fed from another Field) sets every field that Field.Copy sets — in particular Defer and Stream")
 		fieldDuplicationsCarryCopyFields(r, "C10-R7")
+		r.Rule("C10-R8", "the planner reads the arguments of the internal defer directive (and every other ast.Value) through a kind-specific accessor only where the value's kind is known to be that kind")
+		n := kindRefAgreement(r, "C10-R8", []string{"plan"}, nil)
+		r.Expect("C10-R8", "kind-specific uses of a value's ref in package plan", n, 10)
 	}()
 	p := r.Prog
 	pk := p.Pkg("resolve")
